@@ -11,7 +11,7 @@ Theorem C06_accepted : forall c b rl env fn,
   within_limits c b -> c_sys c = sys_budget (kernel_limit rl) env -> c_init c <> [] ->
   Forall (fun len => len + 1 <= MAX_ARG_STRLEN) (env_strings env) ->
   Forall (fun len => len + 1 <= MAX_ARG_STRLEN) (c_init c) ->
-  fn + 1 <= 2048 ->
+  fn + 1 <= 4096 + 2048 ->
   kernel_accepts rl {| argv := c_init c ++ map alen b; envp := env_strings env; fname := fn |}.
 Proof. exact xargs_batch_accepted. Qed.
 Print Assumptions C06_accepted.
